@@ -93,6 +93,14 @@ LEAVES = {
     # base of a family of OVERLAPPING sibling views (negative int, negative slices, LongTensor, bool mask)
     "vbase": (_pos(5, 0.3, 3.0), [0.5, 0.7, 0.9, 1.1, 1.3]),
     "heights3": (_heights, [0.6, 1.4, 2.6]),
+    # construction routes other than "constructor with all its parameters":
+    "differences": (_pos(3, 0.2, 1.0), [0.5, 0.7, 0.9]),   # FlexibleTimeTreeModel.from_json (heights assigned afterwards)
+    "theta_f": (_pos(1, 1.0, 10.0), [2.5]),
+    "pinv3": (_unit(1, 0.05, 0.5), [0.25]),
+    "mu3": (_pos(1, 0.5, 2.0), [1.4]),                      # assigned to a None placeholder after construction
+    "kappa_a": (_pos(1, 1.0, 4.0), [1.5]),                  # replaced by kappa_b after construction
+    "kappa_b": (_pos(1, 1.0, 4.0), [2.5]),
+    "hky2_freqs": (_simplex(4), [0.3, 0.2, 0.2, 0.3]),
     "theta2": (_pos(1, 1.0, 10.0), [3.0]),
 }
 
@@ -195,6 +203,19 @@ def spec(values: dict, with_mg94_like: bool = True):
          "c": "cgd_c", "shape": "cgd_shape", "rate": "cgd_rate"},
         {"id": "coal", "type": "ConstantCoalescentModel", "theta": "theta", "tree_model": "ttree"},
         {"id": "coal2", "type": "ConstantCoalescentModel", "theta": "theta2", "tree_model": "ttree3"},
+        # torchtree's own route for a tree whose heights are a transform OF THAT TREE: built with heights None,
+        # `tree_model._internal_heights = ...` assigned afterwards (FlexibleTimeTreeModel.from_json)
+        {"id": "ftree", "type": "FlexibleTimeTreeModel", "newick": NEWICK, "taxa": "taxa",
+         "internal_heights": {"id": "fheights", "type": "TransformedParameter",
+                              "transform": "torchtree.evolution.tree_height_transform.DifferenceNodeHeightTransform",
+                              "parameters": {"tree_model": "ftree"}, "x": "differences"}},
+        {"id": "coal_f", "type": "ConstantCoalescentModel", "theta": "theta_f", "tree_model": "ftree"},
+        # a parameter attribute first left at its None placeholder, assigned after construction
+        {"id": "site_i2", "type": "InvariantSiteModel", "invariant": "pinv3"},
+        {"post": "setattr", "obj": "site_i2", "attr": "_mu", "value": "mu3"},
+        # a registered parameter REPLACED by another one after construction (`model.param = other_param`)
+        {"id": "hky2", "type": "HKY", "kappa": "kappa_a", "frequencies": "hky2_freqs"},
+        {"post": "setattr", "obj": "hky2", "attr": "_kappa", "value": "kappa_b"},
         # ---------------- distributions
         {"id": "normal", "type": "Distribution", "distribution": "torch.distributions.Normal",
          "x": "cat_ab", "parameters": {"loc": "loc", "scale": "scale"}},
@@ -225,7 +246,7 @@ def spec_small(values: dict):
     keep = {"kappa", "gtr_rates", "tail_rates", "scale", "cat_ab", "cc", "site_i", "hky", "gtr", "normal",
             "prior_kappa", "prior_tail"}
     out = [P(k, values) for k in SMALL_LEAVES]
-    out += [d for d in spec(values) if d["id"] in keep]
+    out += [d for d in spec(values) if d.get("id") in keep]
     out.append({"id": "joint", "type": "JointDistributionModel",
                 "distributions": ["normal", "prior_kappa", "prior_tail", "kappa"]})
     return out
@@ -244,12 +265,21 @@ def build(values, small=False, grads=None, **kw):
     GRADS.clear()
     GRADS.update({k: True for k in (grads or [])})
     dic = {}
+    del ASSIGNMENTS[:]
     for d in (spec_small(values) if small else spec(values, **kw)):
         if "py" in d:
             dic[d["id"]] = build_py(d, dic)
+        elif "post" in d:
+            owner, new = dic[d["obj"]], dic[d["value"]]
+            old = getattr(owner, d["attr"], None)
+            setattr(owner, d["attr"], new)
+            ASSIGNMENTS.append((owner, d["attr"], new, old))
         else:
             process_object(d, dic)
     return dic
+
+
+ASSIGNMENTS = []  # (owner, attribute, new value, old value) of the post-construction assignments of the last build
 
 
 def build_py(d, dic):
